@@ -326,6 +326,8 @@ class Unit:
         if any(d.kind == 'r7' for d in blk.dirs):
             item = X.split_or_patterns(item, log)
         extra_caps = {}
+        if any(d.kind == 'metavars' for d in blk.dirs):
+            item = X.rename_metavars(item, log)
         for d in blk.dirs:
             if d.kind == 'param':
                 a = d.arg.split()
